@@ -259,12 +259,19 @@ def _check_fp(case):
         y = N * math.sin(th) - E * math.cos(th)
     ref = km_field(par, sv, x, y, res)
     mref = float(ref.max()) if ref.size else 0.0
+    # the size of this footprint where it is large (on the wind axis at the peak distance of f^y), whether or not the grid
+    # reaches that place: values twelve orders of magnitude below it are nothing, and their RELATIVE accuracy is that of
+    # exp(-xi/x) and exp(-y^2/2 sigma^2) at arguments of several hundred (thorough seed 16: 1.1875e-271 vs 1.1878e-271 on
+    # a grid that lies almost entirely downwind of the second receptor, so that the grid maximum itself was ~1e-271)
+    peak = float(km_field(par, sv, np.array([par[6] / (1 + par[5])]), np.array([0.0]), res)[0])
+    if not np.isfinite(peak):
+        peak = 0.0
     f32 = "np.float32" in p["types"].values()
     if f32:
-        ok = np.abs(ff - ref) <= 2e-4 * mref + 1e-300
+        ok = np.abs(ff - ref) <= 2e-4 * max(mref, peak) + 1e-300
     else:
         # cells within rounding of the crosswind axis x = 0 may fall on either side; their value is ~exp(-xi/x) = 0 anyway
-        ok = np.abs(ff - ref) <= 1e-9 * np.abs(ref) + 1e-12 * mref + 1e-300
+        ok = np.abs(ff - ref) <= 1e-9 * np.abs(ref) + 1e-12 * max(mref, peak) + 1e-300
     if not np.all(ok):
         j, i = np.argwhere(~ok)[0]
         out.bad(f"cell ({j},{i}) at upwind {x[j, i]:.6g}, crosswind {y[j, i]:.6g}: footprint {ff[j, i]!r}, closed form {ref[j, i]!r} "
@@ -297,7 +304,7 @@ def _check_fp(case):
             y2 = N2 * math.sin(th) - E2 * math.cos(th)
         ref2 = km_field(par, sv, x2, y2, res)
         m2 = float(ref2.max()) if ref2.size else 0.0
-        ok2 = np.abs(ff2 - ref2) <= (2e-4 * m2 if f32 else 1e-9 * np.abs(ref2) + 1e-12 * m2) + 1e-300
+        ok2 = np.abs(ff2 - ref2) <= (2e-4 * max(m2, peak) if f32 else 1e-9 * np.abs(ref2) + 1e-12 * max(m2, peak)) + 1e-300
         if not np.all(ok2):
             j, i = np.argwhere(~ok2)[0]
             out.bad(f"second receptor {(mx2, my2)} on the same grid: cell ({j},{i}) footprint {ff2[j, i]!r}, closed form {ref2[j, i]!r} "
